@@ -208,7 +208,11 @@ def main():
                        "path": None}
                 path, reproduced = native_replay(prop, rr, ref, ridx)
                 status["violations"].append((ref["obligation"], path, reproduced, ref["text"]))
-            if isdeg and o.get("satisfying_requires", 0) == 0:
+            if isdeg and o.get("satisfying_requires", 0) == 0 and o.get("shape_errors", 0) > 0:
+                # the stand-in could not evaluate anything either: undecided (exit 2), never a violation, never "held"
+                status["undecided"].append(f"{o['contract']}: UNSUPPORTED and its bounded stand-in could not run "
+                                           f"({(o.get('errors') or ['?'])[0]})")
+            elif isdeg and o.get("satisfying_requires", 0) == 0:
                 status["errors"].append(f"{o['contract']}: degraded to its bounded stand-in but no input could be run: "
                                         f"{o.get('errors')}")
     # a degraded function with a passing stand-in is not an alarm; drop it from `undecided` -- but a degraded
